@@ -720,15 +720,21 @@ pub fn run_to_json(run: &Run) -> J {
 /// Run `lsx sub run <prop> <tier> [args]` in the checked binary and merge its sections and
 /// violations into `run`. Returns the child's JSON (for digest joins).
 pub fn child_run(run: &Run, args: &[&str]) -> Option<J> {
-    let exe = match std::env::var("LSX_CHECKED") {
+    child_run_with(run, "LSX_CHECKED", "checked", &["sub", "run", &run.prop.clone(), run.tier.name()], args)
+}
+
+/// Generalised child run: the executable named by the environment variable `exe_var`, which
+/// must report the profile `expect`.
+pub fn child_run_with(run: &Run, exe_var: &str, expect: &str, head: &[&str], args: &[&str]) -> Option<J> {
+    let exe = match std::env::var(exe_var) {
         Ok(e) => e,
         Err(_) => {
-            run.machinery("LSX_CHECKED is not set: the checked-profile binary is needed for this property (use ./check)".into());
+            run.machinery(format!("{} is not set: a second binary is needed for this property (use ./check)", exe_var));
             return None;
         }
     };
     let t0 = Instant::now();
-    let out = std::process::Command::new(&exe).arg("sub").arg("run").arg(&run.prop).arg(run.tier.name()).args(args).env("VERIF_SEED", format!("{}", run.seed as i64)).output();
+    let out = std::process::Command::new(&exe).args(head).args(args).env("VERIF_SEED", format!("{}", run.seed as i64)).output();
     let out = match out {
         Ok(o) => o,
         Err(e) => {
@@ -737,7 +743,7 @@ pub fn child_run(run: &Run, args: &[&str]) -> Option<J> {
         }
     };
     if !out.status.success() {
-        run.machinery(format!("checked-profile child failed ({}): {}", out.status, String::from_utf8_lossy(&out.stderr).chars().take(2000).collect::<String>()));
+        run.machinery(format!("child process failed ({}): {}", out.status, String::from_utf8_lossy(&out.stderr).chars().take(2000).collect::<String>()));
         return None;
     }
     let text = String::from_utf8_lossy(&out.stdout).to_string();
@@ -748,8 +754,8 @@ pub fn child_run(run: &Run, args: &[&str]) -> Option<J> {
             return None;
         }
     };
-    if j.get("profile").and_then(|p| p.as_str()) != Some("checked") {
-        run.machinery("the binary named by LSX_CHECKED was not built with debug assertions".into());
+    if j.get("profile").and_then(|p| p.as_str()) != Some(expect) {
+        run.machinery(format!("the binary named by {} does not report the profile {}", exe_var, expect));
         return None;
     }
     if let Some(m) = j.get("machinery").and_then(|m| m.as_str()) {
@@ -759,7 +765,7 @@ pub fn child_run(run: &Run, args: &[&str]) -> Option<J> {
     for s in j.get("sections").and_then(|s| s.as_arr()).unwrap_or(&[]) {
         let g = |k: &str| s.get(k).and_then(|x| x.as_i()).unwrap_or(0) as u64;
         let sec = Section {
-            name: format!("[checked profile] {}", s.get("name").and_then(|x| x.as_str()).unwrap_or("")),
+            name: format!("[{} profile] {}", expect, s.get("name").and_then(|x| x.as_str()).unwrap_or("")),
             exhaustive: matches!(s.get("exhaustive"), Some(J::Bool(true))),
             bound: s.get("bound").and_then(|x| x.as_str()).unwrap_or("").to_string(),
             states: g("states"),
@@ -783,7 +789,7 @@ pub fn child_run(run: &Run, args: &[&str]) -> Option<J> {
     let mut outcomes = run.outcomes.lock().unwrap();
     if let Some(J::Obj(o)) = j.get("outcomes") {
         for (k, v) in o {
-            *outcomes.entry(format!("checked:{}", k)).or_insert(0) += v.as_i().unwrap_or(0) as u64;
+            *outcomes.entry(format!("{}:{}", expect, k)).or_insert(0) += v.as_i().unwrap_or(0) as u64;
         }
     }
     if !run.silent {
